@@ -268,4 +268,7 @@ def run(ck, tier):
     ck.guard(r2_delivered_range_is_declared_range, ck, cx)
     ck.guard(r4_pdu_extent, ck, cx)
     ck.assume('which corruptions CRC-16 / LRC detect is the mathematics of the codes and is not decided; nor is the arithmetic inside computeCRC/computeLRC beyond the constants')
+    from .. import ownership as _own2
+    ck.rule('R5', 'no unsound memoisation (a caching decorator on a method, or on a function that returns a mutable container) in the modules this property rests on')
+    ck.guard(_own2.rule_no_unsafe_memo, ck, cx, 'R5', ('pymodbus.framer', 'pymodbus.framer.socket_framer', 'pymodbus.framer.rtu_framer', 'pymodbus.framer.ascii_framer', 'pymodbus.framer.binary_framer', 'pymodbus.framer.tls_framer', 'pymodbus.utilities'), 'an integrity check is answered from a value cached for other bytes')
     return cx.idx
